@@ -115,6 +115,55 @@ pub fn run(rep: &mut Rep) {
             long_run(rep, &id, *total, *window, *ids, rep.seed.wrapping_add(k as u64));
         }
     }
+    // subscription identifiers across every encoding boundary of the variable byte integer
+    let bounds: [u32; 5] = [127, 16_383, 2_097_151, 4_194_303, 268_435_455 - 12];
+    rep.note(&format!("subscription identifiers: counter seeded (hook H2) 4 below each of {:?}, 12 subscribe() calls from three handle clones with live streams across the boundary, all outstanding together; identifiers on the wire non-zero, pairwise distinct and equal to the identifier the messages are routed by (one message per subscription, checked on its stream)", bounds));
+    for (bi, b) in bounds.iter().enumerate() {
+        let id = format!("subid-boundary:{b}");
+        idx += 1;
+        if !rep.take(idx, &id) {
+            continue;
+        }
+        let mut w = World::boot(WorldCfg { seed: rep.seed, seed_ids: Some((100 + bi as u16, b - 4)), ..Default::default() });
+        w.sim.clone_handle(0);
+        let mut subs = Vec::new();
+        for j in 0..12usize {
+            let i = w.start(j % 3, Kind::Sub);
+            w.settle_check();
+            subs.push(i);
+        }
+        for &i in &subs {
+            if w.m[i].req_wire.is_some() {
+                w.deliver_ack(i, 1, 0, 0);
+                w.settle_check();
+                w.take_stream(i);
+            }
+        }
+        let mut want: Vec<u32> = Vec::new();
+        for (j, &i) in subs.iter().enumerate() {
+            let expect = b - 4 + j as u32;
+            want.push(expect);
+            match w.m[i].sub_id {
+                Some(v) if v == expect => {}
+                other => {
+                    w.viol(&["C11"], "C11/subscription-id-not-the-allocated-one".into(), format!("op{i}: the {j}-th subscribe() after seeding the counter at {} carries subscription identifier {:?} on the wire, expected {expect}", b - 4, other));
+                }
+            }
+            if let Some(v) = w.m[i].sub_id {
+                w.in_publish(0, 0, false, &[v], false);
+                w.settle_check();
+            }
+        }
+        super::script::finish(&mut w);
+        rep.add("evaluations", 1);
+        rep.add("subscription_id_boundary_cases", 1);
+        rep.add("subscription_ids_checked", subs.len() as i64);
+        rep.distinct(&("subid", b));
+        if harvest(rep, &mut w, &id) == 0 {
+            rep.sample(|| format!("{id}: identifiers {:?} on the wire, one message routed to each", want));
+        }
+        add_counters(rep, &w);
+    }
     // small Receive Maximum: publishes refused for quota (their identifier never reaches the wire) interleaved with
     // other identifier-consuming operations whose futures are polled late
     let wa = Alpha {
